@@ -9,8 +9,11 @@ HEADER_OUT = ("From Coq Require Import List Bool Arith NArith.\nImport ListNotat
               "Definition fws_code (r : fws) : N := match r with FWSPanic => 0 | FWSErr => 1 | FWSOk d => (2 + d) end%N.\n")
 
 
-def family_mp(M, P):
-    """a model with M basis functions and P nonlinear parameters (P <= 2M)"""
+def family_mp(M, P, shared=False):
+    """a model with M basis functions and P nonlinear parameters (P <= 2M); shared: parameter 0 is used by two basis functions
+    (its derivative matrix has two non-zero columns)"""
+    if shared and M >= 2 and P == 2:
+        return [["exprate", 0], ["expcos", 0, 1]] + [["const"], ["lin"]][: M - 2], (0.25, 1.5)
     if P <= M:
         basis = [["exprate", k] for k in range(P)] + [["const"], ["lin"]][: M - P]
         rng_ = (0.25, 2.0)
@@ -30,11 +33,14 @@ def family_mp(M, P):
 
 
 def gen_stats_case(rng, M, P, N, scalar="f64", weights=None, noise=0.05, quant=None, probs=None, ctor="new", faults=None,
-                   builder_made=False, patience=None, cfg=None, qbits=10):
-    basis, (lo, hi) = family_mp(M, P)
+                   builder_made=False, patience=None, cfg=None, qbits=10, shared=False):
+    basis, (lo, hi) = family_mp(M, P, shared=shared)
+    shared = shared and M >= 2 and P == 2
     # well separated parameters keep the normal matrix H^T H reasonably conditioned (otherwise most cases are skipped)
     truth = []
-    if P <= M:
+    if shared:
+        truth = [round(rng.uniform(0.3, 0.6) * 16) / 16, round(rng.uniform(1.0, 2.5) * 16) / 16]
+    elif P <= M:
         r = rng.uniform(0.2, 0.4)
         for _ in range(P):
             truth.append(round(r * 16) / 16)
